@@ -16,14 +16,14 @@ RULE = (
     "Cases: histories drawn by a Hypothesis RuleBasedStateMachine. Initial state: a closed CFG from closed_cfgs(max_n=9), flat, after "
     "join_returns+restructure_loop or after the full pipeline (so that top-level predecessors include regions - also regions whose exiting block is again a region - and branching synthetic blocks). Rules: insert_block and its "
     "four typed wrappers with drawn predecessors P (1-3 top-level blocks) and successors S (non-empty subset of P's successors; S=[] only with exit "
-    "blocks as predecessors), insert_block_and_control_blocks, join_returns, join_tails_and_exits (documented cardinalities). After every step the real "
+    "blocks as predecessors), insert_block_and_control_blocks, join_returns, join_tails_and_exits (documented cardinalities), and a rule that switches the (sub)graph the operations act on to any region's sub-graph (successors are then drawn inside that level). After every step the real "
     "top-level graph is compared with the arc-level model (names, classes, ordered successors, back edges, value tables), the hierarchy validator and "
     "table validator of C04/C06 run, and for histories that preserve paths by construction the product walk of C01 runs against the initial graph. "
     "Non-trivial = the history contains an insertion whose predecessor is a region or a branching synthetic block, or has >= 3 operations. "
     "Distinct = hash of the operation list."
 )
 ASSUME = [
-    "S = [] is generated with exit blocks as predecessors only (the one caller, join_returns); S is drawn from the successors of P (callers' domain)",
+    "S = [] is generated with exit blocks as predecessors only (the one caller, join_returns) and, like join_returns, only on the top-level graph (inside a region it would change which block is the exiting one); S is drawn from the successors of P that lie in the same (sub)graph (callers' domain)",
     "plain insert_block merges two arcs of one predecessor into one (documented): only the arc-level oracle applies then, not path preservation",
 ]
 
@@ -64,14 +64,14 @@ def _mk_machine(col, max_n, raise_sig=None):
             cand = []
             for p in P:
                 for t in top[p]["jt"]:
-                    if t not in top[p]["be"] and t not in cand:
+                    if t not in top[p]["be"] and t not in cand and t in top:
                         cand.append(t)
             if cand:
                 S = data.draw(st.lists(st.sampled_from(cand), min_size=1, max_size=3, unique=True), label="S")
             else:
                 S = []  # all predecessors are exits
-                if any(top[p]["jt"] for p in P):
-                    return
+                if any(top[p]["jt"] for p in P) or self.ex.cur is not self.ex.real:
+                    return  # closing a graph is a top-level operation
             self._apply(["insert", kind, P, S])
 
         @precondition(lambda self: not self.dead)
@@ -83,7 +83,7 @@ def _mk_machine(col, max_n, raise_sig=None):
             cand = []
             for p in P:
                 for t in top[p]["jt"]:
-                    if t not in top[p]["be"] and t not in cand:
+                    if t not in top[p]["be"] and t not in cand and t in top:
                         cand.append(t)
             if not cand:
                 return
@@ -91,8 +91,17 @@ def _mk_machine(col, max_n, raise_sig=None):
             self._apply(["ctrl", P, S])
 
         @precondition(lambda self: not self.dead)
+        @rule(data=st.data())
+        def level(self, data):
+            flat = M.Flat(self.ex.real)
+            names = [None] + sorted(flat.regions)
+            self._apply(["level", data.draw(st.sampled_from(names), label="level")])
+
+        @precondition(lambda self: not self.dead)
         @rule()
         def join_returns(self):
+            if self.ex.cur is not self.ex.real:
+                return  # closing a graph is a top-level operation
             self._apply(["join_returns"])
 
         @precondition(lambda self: not self.dead)
@@ -106,7 +115,7 @@ def _mk_machine(col, max_n, raise_sig=None):
             cand = []
             for p in tails:
                 for t in top[p]["jt"]:
-                    if t not in top[p]["be"] and t not in cand:
+                    if t not in top[p]["be"] and t not in cand and t in top:
                         cand.append(t)
             if not cand:
                 return
